@@ -116,3 +116,39 @@ MUTANTS += [
     M('benign-api-trace', ['C01', 'C10'], API, '	if ( new_symbol_esi >= (((of_cb_t*) ses)->nb_source_symbols + ((of_cb_t*) ses)->nb_repair_symbols) )\n	{',
       '	OF_TRACE_LVL (2, ("decode esi=%u\\n", new_symbol_esi))\n	if ( new_symbol_esi >= (((of_cb_t*) ses)->nb_source_symbols + ((of_cb_t*) ses)->nb_repair_symbols) )\n	{', expect=0),
 ]
+
+MUTANTS += [
+    # ---- C09
+    REV('revert-generic-zero-check', 'C09', '578eafc', 'R-PARAM'),
+    REV('revert-rs28-n-check', 'C09', '492b3a4', 'R-PARAM'),
+    REV('revert-ldpc-seed-check', 'C09', '971f221', 'R-PARAM'),
+    M('param-n1-lower', 'C09', LDPCAPI, '	if (params->N1 < 3)', '	if (params->N1 < 2)', 'R-PARAM'),
+    M('param-m-7', 'C09', RS2API, '	if ((ofcb->m != 4) && (ofcb->m != 8)) {', '	if ((ofcb->m != 4) && (ofcb->m != 8) && (ofcb->m != 7)) {', 'R-PARAM'),
+    M('param-k-vs-maxn', 'C09', LDPCAPI, '	if ((ofcb->nb_source_symbols = params->nb_source_symbols) > ofcb->max_nb_source_symbols)\n	{\n		OF_PRINT_ERROR(("of_ldpc_staircase',
+      '	if ((ofcb->nb_source_symbols = params->nb_source_symbols) > 2 * ofcb->max_nb_source_symbols)\n	{\n		OF_PRINT_ERROR(("of_ldpc_staircase', 'R-PARAM'),
+    M('param-ldpc-r-check-dropped', 'C09', LDPCAPI, '	if ((ofcb->nb_repair_symbols = params->nb_repair_symbols) > ofcb->max_nb_encoding_symbols)\n	{',
+      '	if ((ofcb->nb_repair_symbols = params->nb_repair_symbols) > 0xFFFFFFF0u)\n	{', 'R-PARAM'),
+    M('param-n1-vs-r-dropped', 'C09', 'src/lib_stable/ldpc_staircase/of_ldpc_staircase_pchk.c', '	if (left_degree > nb_rows)\n	{', '	if (left_degree > nb_cols)\n	{', 'R-PARAM'),
+    M('param-generic-check-only-k', 'C09', API, "((params->nb_source_symbols <= 0) || (params->nb_repair_symbols <= 0)) ||", "((params->nb_source_symbols <= 0)) ||", 'R-PARAM'),
+    M('apiguard-esi-le', ['C09', 'C07'], API, 'new_symbol_esi >= (((of_cb_t*) ses)->nb_source_symbols', 'new_symbol_esi > (((of_cb_t*) ses)->nb_source_symbols', 'R-APIGUARD', count=2),
+    M('benign-apiguard-redundant-check', 'C09', API, '	if ( new_symbol_esi >= (((of_cb_t*) ses)->nb_source_symbols + ((of_cb_t*) ses)->nb_repair_symbols) )\n	{',
+      '	if ( new_symbol_esi > (((of_cb_t*) ses)->nb_source_symbols + ((of_cb_t*) ses)->nb_repair_symbols) )\n	{', expect=0),
+    M('apiguard-role-dropped', 'C09', API, '''	if (!(((of_cb_t*) ses)->codec_type & OF_ENCODER))
+	{''', '''	if (0)
+	{''', 'R-APIGUARD'),
+    M('apiguard-null-ses', 'C09', API, '''of_status_t	of_finish_decoding (of_session_t*	ses)
+{
+	of_status_t	status;
+	
+	OF_ENTER_FUNCTION
+	if (ses == NULL)''', '''of_status_t	of_finish_decoding (of_session_t*	ses)
+{
+	of_status_t	status;
+	
+	OF_ENTER_FUNCTION
+	if (0)''', 'R-APIGUARD'),
+    M('apiguard-build-esi-lower', ['C09', 'C06'], RSAPI, 'if (esi_of_symbol_to_build < ofcb->nb_source_symbols || esi_of_symbol_to_build >= ofcb->nb_encoding_symbols)',
+      'if (esi_of_symbol_to_build >= ofcb->nb_encoding_symbols)', 'R-APIGUARD'),
+    M('benign-param-reorder', 'C09', LDPCAPI, '	if (params->N1 < 3)', '	if (3 > params->N1)', expect=0),
+    M('benign-seed-guard-form', 'C09', LDPCAPI, '	if (params->prng_seed < 1 || params->prng_seed > 0x7FFFFFFE)', '	if (params->prng_seed <= 0 || params->prng_seed >= 0x7FFFFFFF)', expect=0),
+]
